@@ -749,7 +749,7 @@ def unpack_dataclass(spec: ValueSpec) -> Optional[Expression]:
             # refer to themselves or to each other)
             outer.cls is spec.origin_type
             and outer.get_unpack_method_name(
-                type_args=type_args,
+                type_args=outer.initial_type_args,
                 format_name=outer.format_name,
                 decoder=outer.decoder,
             )
